@@ -844,6 +844,7 @@ fn families(w: Which, r: &Runner) {
     };
     families_phase(r, "model", accept, move |r, ctx, l, rec| check(w, r, ctx, l, rec));
     dict_phase(r, "model", accept, move |r, ctx, l, rec| check(w, r, ctx, l, rec));
+    dict_dup_phase(r, "model", accept, move |r, ctx, l, rec| check(w, r, ctx, l, rec));
     selftest_phase(r, "model", accept, move |r, ctx, l, rec| check(w, r, ctx, l, rec));
     repeat_boundary_phase(r, "model", accept, move |r, ctx, l, rec| check(w, r, ctx, l, rec));
     after_blank_run_phase(r, "model", accept, move |r, ctx, l, rec| check(w, r, ctx, l, rec));
